@@ -289,12 +289,20 @@ mod compat {
     use codespan_reporting::files::SimpleFile;
 
     pub fn position_to_offset(file: &SimpleFile<&str, &str>, pos: &lsp_types::Position) -> usize {
+        use codespan_reporting::files::Files;
+
+        // a position past the last line maps to the end of the document
+        let Ok(line) = file.line_range((), pos.line as usize) else {
+            return file.source().len();
+        };
+        // a character past the end of the line defaults back to the line length
+        let line_end = line.start + file.source()[line.clone()].trim_end_matches(['\n', '\r']).len();
         codespan_lsp::position_to_byte_index(
             file,
             (),
             &lsp_types_old::Position::new(pos.line, pos.character),
         )
-        .unwrap()
+        .unwrap_or(line_end)
     }
 
     pub fn span_to_range(file: &SimpleFile<&str, &str>, span: &Span) -> lsp_types::Range {
